@@ -406,6 +406,63 @@ func (s *c18Run) resolve(id entity.Id, prefix bool) (*cache.BugCache, error) {
 	return s.c.Bugs().Resolve(id)
 }
 
+// a word that only the text written by call k of goroutine t contains
+func c18Word(t, k int) string { return fmt.Sprintf("w%dx%dz", t, k) }
+
+// Once the goroutines are done, before the flush: the full-text index against the entities. For every text a
+// successful edit wrote (comment, title, body of the first comment): the bug is found by the word only that
+// text contains exactly when the text is still part of what the entity of the cache shows (a later title or
+// body edit replaces the earlier one). Returns bug id -> difference.
+func (s *c18Run) staleIndex(calls []c18Rec) map[string]string {
+	res := map[string]string{}
+	texts := map[string]string{}
+	for _, r := range calls {
+		call := s.in.Threads[r.T][r.K]
+		if call.K != "edit" || r.OpID == "" || r.EditE != c18OK || r.Bug == "" {
+			continue
+		}
+		switch call.Op {
+		case "title", "body", "comment":
+		default:
+			continue
+		}
+		if _, ok := texts[r.Bug]; !ok {
+			b, err := s.c.Bugs().Resolve(entity.Id(r.Bug))
+			if err != nil {
+				continue
+			}
+			snap := b.Snapshot()
+			var sb strings.Builder
+			for _, c := range snap.Comments {
+				sb.WriteString(c.Message + " ")
+			}
+			sb.WriteString(snap.Title + " ")
+			texts[r.Bug] = sb.String()
+		}
+		word := c18Word(r.T, r.K)
+		want := strings.Contains(texts[r.Bug], word+" ")
+		q, err := query.Parse(word + " sort:id")
+		if err != nil {
+			panic(err)
+		}
+		ids, err := s.c.Bugs().Query(q)
+		if err != nil {
+			res[r.Bug] = "index: query " + word + ": " + err.Error()
+			continue
+		}
+		have := false
+		for _, id := range ids {
+			if id.String() == r.Bug {
+				have = true
+			}
+		}
+		if have != want {
+			res[r.Bug] = fmt.Sprintf("index: the text of call t%d k%d (%s) is in the entity: %v, found by the full-text search: %v", r.T, r.K, call.Op, want, have)
+		}
+	}
+	return res
+}
+
 // one goroutine
 func (s *c18Run) worker(t int, start <-chan struct{}, wg *sync.WaitGroup) {
 	defer wg.Done()
@@ -462,7 +519,7 @@ func (s *c18Run) worker(t int, start <-chan struct{}, wg *sync.WaitGroup) {
 			var opid entity.Id
 			switch call.Op {
 			case "title":
-				o, e := b.SetTitleRaw(s.author, unix, fmt.Sprintf("title t%d k%d", t, k), nil)
+				o, e := b.SetTitleRaw(s.author, unix, fmt.Sprintf("title t%d k%d %s", t, k, c18Word(t, k)), nil)
 				if err = e; o != nil {
 					opid = o.Id()
 				}
@@ -482,12 +539,12 @@ func (s *c18Run) worker(t int, start <-chan struct{}, wg *sync.WaitGroup) {
 					opid = o.Id()
 				}
 			case "body":
-				_, o, e := b.EditCreateCommentRaw(s.author, unix, fmt.Sprintf("body t%d k%d", t, k), nil)
+				_, o, e := b.EditCreateCommentRaw(s.author, unix, fmt.Sprintf("body t%d k%d %s", t, k, c18Word(t, k)), nil)
 				if err = e; o != nil {
 					opid = o.Id()
 				}
 			default:
-				_, o, e := b.AddCommentRaw(s.author, unix, fmt.Sprintf("comment t%d k%d", t, k), nil, nil)
+				_, o, e := b.AddCommentRaw(s.author, unix, fmt.Sprintf("comment t%d k%d %s", t, k, c18Word(t, k)), nil, nil)
 				if err = e; o != nil {
 					opid = o.Id()
 				}
@@ -805,18 +862,19 @@ func c18ReadStored(repo repository.ClockedRepo, id entity.Id) c18Stored {
 }
 
 type c18Obs struct {
-	Stuck     bool                 `json:"stuck"`
-	StuckTags []string             `json:"stuck_tags,omitempty"`
-	Dump      string               `json:"dump,omitempty"`
-	Calls     []c18Rec             `json:"calls"`
-	Flush     map[string]string    `json:"flush,omitempty"`
-	Stored    map[string]c18Stored `json:"stored,omitempty"`
-	Coherent  bool                 `json:"coherent"`
-	Diff      []string             `json:"diff,omitempty"`
-	Stale     map[string]string    `json:"stale_excerpts,omitempty"` // before the flush: excerpt in the cache != excerpt of the cached entity
-	Notes     []string             `json:"notes,omitempty"`
-	WallMs    int64                `json:"wall_ms"`  // the goroutines
-	TotalMs   int64                `json:"total_ms"` // set-up, goroutines, flush, observations, rebuild
+	Stuck      bool                 `json:"stuck"`
+	StuckTags  []string             `json:"stuck_tags,omitempty"`
+	Dump       string               `json:"dump,omitempty"`
+	Calls      []c18Rec             `json:"calls"`
+	Flush      map[string]string    `json:"flush,omitempty"`
+	Stored     map[string]c18Stored `json:"stored,omitempty"`
+	Coherent   bool                 `json:"coherent"`
+	Diff       []string             `json:"diff,omitempty"`
+	Stale      map[string]string    `json:"stale_excerpts,omitempty"` // before the flush: excerpt in the cache != excerpt of the cached entity
+	StaleIndex map[string]string    `json:"stale_index,omitempty"`    // before the flush: full-text index != texts of the cached entity
+	Notes      []string             `json:"notes,omitempty"`
+	WallMs     int64                `json:"wall_ms"`  // the goroutines
+	TotalMs    int64                `json:"total_ms"` // set-up, goroutines, flush, observations, rebuild
 }
 
 func (c18Driver) Run(raw json.RawMessage) Case {
@@ -972,6 +1030,7 @@ wait:
 	if !obs.Stuck {
 		// the excerpts the goroutines left behind against the entities they belong to
 		obs.Stale = c18StaleExcerpts(s.c)
+		obs.StaleIndex = s.staleIndex(calls)
 		// flush what was left staged, then look at the live cache, then close it
 		var ids []string
 		for id := range bugIDs {
@@ -1127,8 +1186,15 @@ func c18Render(in c18Input, raw json.RawMessage, s *c18Run, obs c18Obs, flushCla
 		}
 	}
 	// the bugs whose excerpt was stale once the goroutines were done (0: a bug no call of the run knows)
-	var staleNos []int
+	staleIDs := map[string]bool{}
 	for id := range obs.Stale {
+		staleIDs[id] = true
+	}
+	for id := range obs.StaleIndex {
+		staleIDs[id] = true
+	}
+	var staleNos []int
+	for id := range staleIDs {
 		staleNos = append(staleNos, bugNo[id])
 	}
 	sort.Ints(staleNos)
@@ -1142,26 +1208,30 @@ func c18Render(in c18Input, raw json.RawMessage, s *c18Run, obs c18Obs, flushCla
 		tags = append(tags, "stuck")
 		tags = append(tags, obs.StuckTags...)
 	}
-	if len(obs.Stale) > 0 {
+	if len(staleIDs) > 0 {
 		tags = append(tags, "stale-excerpt")
-		// every stale excerpt belongs to a bug about which entityUpdated told its caller "entity missing from cache"
-		// (the entity was evicted between the change and the notification)
+		// per stale bug: entityUpdated told a caller "entity missing from cache" about it (the entity was evicted
+		// between the change and the notification); or only the full-text index is behind; or neither
 		missed := map[string]bool{}
 		for _, r := range obs.Calls {
 			if r.Bug != "" && (r.EditE == c18Missing || r.CommE == c18Missing) {
 				missed[r.Bug] = true
 			}
 		}
-		only := true
-		for id := range obs.Stale {
-			if !missed[id] {
-				only = false
+		kinds := map[string]bool{}
+		for id := range staleIDs {
+			_, ex := obs.Stale[id]
+			switch {
+			case missed[id]:
+				kinds["stale:after-missing"] = true
+			case !ex:
+				kinds["stale:index-only"] = true
+			default:
+				kinds["stale:unexplained"] = true
 			}
 		}
-		if only {
-			tags = append(tags, "stale:after-missing-only")
-		} else {
-			tags = append(tags, "stale:unexplained")
+		for k := range kinds {
+			tags = append(tags, k)
 		}
 	}
 	if !obs.Coherent {
